@@ -122,6 +122,34 @@ def _layer(C, x, table, kind):
     consistent with the path condition.  (That the path condition IMPLIES it is a claim of its own.)"""
     from symnp import solve
 
+    # fast path: the path condition usually contains the code's own comparisons of this quantity with the table
+    # (H_b[j] <= h resp. P_b[j] >= P, or their negations); they are recognised by the tabulated constant on one side
+    # and the variables of x on the other.  The solver is only asked when that does not settle the layer.
+    xv = solve.vars_of(x) - {"pi"}
+    status = {}
+    for p_ in C.pc:
+        pos, t = True, p_
+        if t.decl().kind() == z3.Z3_OP_NOT:
+            pos, t = False, t.children()[0]
+        kd = t.decl().kind()
+        if kd not in (z3.Z3_OP_LE, z3.Z3_OP_GE) or len(t.children()) != 2:
+            continue
+        l, r_ = t.children()
+        if z3.is_rational_value(r_) and not z3.is_rational_value(l):  # T >= c  /  T <= c  ->  c <= T  /  c >= T
+            l, r_, kd = r_, l, (z3.Z3_OP_LE if kd == z3.Z3_OP_GE else z3.Z3_OP_GE)
+        if not z3.is_rational_value(l) or (solve.vars_of(r_) - {"pi"}) != xv:
+            continue
+        if (kind == "H") != (kd == z3.Z3_OP_LE):
+            continue
+        for j in range(1, 9):
+            tj = table.a[j]
+            if not tj.is_inf() and tj.t is None and l.eq(core.rv(tj.c)):
+                status[j] = pos
+    if status:
+        ks = [k for k in range(8) if all(status.get(j) is True for j in range(1, k + 1))
+              and (table.a[k + 1].is_inf() if kind == "H" and table.a[k + 1].is_inf() else status.get(k + 1) is False or (k == 7 and kind == "P" and status.get(8) is None))]
+        if len(ks) == 1:
+            return ks[0]
     cands = []
     for k in range(8):
         a, b = table.a[k], table.a[k + 1]
